@@ -292,6 +292,15 @@ func (c *compiler) assembleLine(in sourceLine) (Instruction, error) {
 func (c *compiler) compile() (WarriorData, error) {
 	c.loadSymbols()
 
+	// a value that is too long as it stands cannot be used anywhere; say so
+	// before the graph of the symbols is built, which reads every token of
+	// every value
+	for _, key := range sortedKeys(c.values) {
+		if len(c.values[key]) > maxExpressionTokens {
+			return WarriorData{}, fmt.Errorf("symbol '%s' expands to more than %d tokens", key, maxExpressionTokens)
+		}
+	}
+
 	graph := buildReferenceGraph(c.values)
 	cyclic, cyclicKey := graphContainsCycle(graph)
 	if cyclic {
